@@ -43,16 +43,26 @@ func (c08) Run(c *mon.Ctx, i int) {
 		default:
 			d = gen.RandomData(r, 5000)
 		}
+		lvl := allLevels[r.Intn(len(allLevels))]
+		edge := false
+		if r.Chance(1, 6) {
+			// payloads ending right at / just past the inflater's 64 KiB window, small
+			// alphabets (short codes), written by fastgo's own compressor whose last
+			// block is a dynamic one
+			d = gen.Make(r, []string{"alpha2", "alpha4", "equal", "text"}[r.Intn(4)], 65536+32768*r.Pick(0, 0, 1)+r.Range(0, 3))
+			lvl = accelLevels[r.Intn(4)]
+			edge = true
+		}
 		h := randHeader(r)
 		if len(h.Extra) > 2000 {
 			h.Extra = h.Extra[:2000]
 		}
 		api := impl.Stdlib
-		if r.Bool() {
+		if r.Bool() || edge {
 			api = c.API
 		}
 		var b bytes.Buffer
-		w, _ := api.NewGzipWriterLevel(&b, allLevels[r.Intn(len(allLevels))])
+		w, _ := api.NewGzipWriterLevel(&b, lvl)
 		w.SetHeader(h)
 		w.Write(d.B)
 		w.Close()
